@@ -9,8 +9,9 @@ import (
 )
 
 type cacheControl struct {
-	noCache bool
-	maxAge  time.Duration
+	noCache   bool
+	maxAge    time.Duration
+	hasMaxAge bool // a max-age directive was given (possibly zero)
 }
 
 func parseCacheControl(ccHeader string) (cacheControl, error) {
@@ -27,7 +28,9 @@ func parseCacheControl(ccHeader string) (cacheControl, error) {
 			if err != nil {
 				return cacheControl{}, fmt.Errorf("%w: %v", ErrParseMaxAge, err)
 			}
+			cc.hasMaxAge = true
 			if maxAge < 1 {
+				cc.maxAge = 0
 				cc.noCache = true // If max-age is less than 1, treat it as no-cache
 				slog.Debug("max-age is less than 1 second, treating as no-cache", "raw", directive)
 				continue
